@@ -36,8 +36,10 @@ func vhHex(n int) entity.Id { return entity.Id(fmt.Sprintf("%08x%056x", n, 0)) }
 
 var vhAuthors = []*vhAuthor{{id: vhHex(0xa1)}, {id: vhHex(0xa2)}}
 
+// every operation carries its own author object, as after decoding from git: the same
+// person is the same id, not the same pointer
 func vhBase(t dag.OperationType, a int, n int) dag.OpBase {
-	return dag.VHNewOpBase(t, vhAuthors[a], 1, vhHex(0x1000+n))
+	return dag.VHNewOpBase(t, &vhAuthor{id: vhAuthors[a].id}, 1, vhHex(0x1000+n))
 }
 
 // ---- reference interpreter (doc/model.md, README operation semantics) ----
@@ -131,6 +133,15 @@ func VH_C10_sequence() {
 				rt.Cover("edit-non-comment-target")
 			}
 			msg := fmt.Sprintf("e%d", j)
+			if kind == 0 && rt.Choose(2) == 1 {
+				// an edit that keeps the text (changes the attachments only)
+				for _, rc := range ref.comments {
+					if rc.target == target {
+						msg = rc.message
+					}
+				}
+				rt.Cover("edit-keeping-the-text")
+			}
 			fs, f := vhPickFiles(j)
 			op := &EditCommentOperation{OpBase: vhBase(EditCommentOp, a, j), Target: target, Message: msg, Files: fs}
 			b.Append(op)
